@@ -22,8 +22,8 @@ LEVEL_TEXT = ("Held on every generated case of the run: methods {linear, cspline
               "needed} x grids (uniform/random/clustered/graded, 3-40 knots; sorted, assumed sorted, shuffled, reversed) x query "
               "sets (knots, range ends, inside, outside up to 2.6 ranges away; shuffled; 1..3nx points) x y batch shapes x "
               "float64/float32, each evaluated through both internal formulas and with y at construction and at call.")
-LEVEL_NOTE = ("Trusts scipy.interpolate.CubicSpline and numpy.interp; tolerances C*eps*G*(max|y| + max|slope|*max|x|) with C >= 100x "
-              "the largest error seen on the repaired tree; sample positions never require grad; x and xq are 1-D.")
+LEVEL_NOTE = ("Trusts scipy.interpolate.CubicSpline and numpy.interp; tolerances 2000*eps*G*(max|y| + max|slope|*hmax) (see ASSUMPTIONS), >= 200x "
+              "the largest error seen on the repaired tree over seeds 0-3; sample positions never require grad; x and xq are 1-D.")
 RULE = ("cases = seeded samples over method x bc_type x extrapolation mode x grid kind x nx in [3,40] x sample order x y batch shape x "
         "dtype x query layout, plus the full (bc, extrap) table on small grids and the nx in {3,4,5} table; non-trivial = samples not "
         "constant, the case really went through BOTH evaluation formulas (counted by a wrapper on _interp) and all four "
@@ -35,7 +35,7 @@ ASSUMPTIONS = ["sample positions distinct, 1-D, never requiring grad; x in [-3, 
                "y ~ N(0,1); periodic bc_type or periodic extrapolation get y[...,0] == y[...,-1]",
                "not-a-knot on 3 knots = the parabola (both not-a-knot conditions coincide; scipy's convention)",
                "value tolerance 2000*eps*G*(max|y| + max|slope|*hmax), G = adjacent spacing ratio (incl. last/first for periodic); for outside "
-               "queries mapped into the range (mirror/periodic) hmax is replaced by hmax+max|x|+max|xq| (rounding of the mapped position); "
+               "queries mapped into the range (mirror/periodic/bound) hmax is replaced by hmax+max|x|+max|xq| (rounding of the mapped position); "
                "d/dxq tolerance 2000*eps*G*max|slope|*hmax/hmin (mapped: (hmax+max|x|+max|xq|)/hmin); float32 uses eps32; matrix / d/dy tolerance 2000*eps*G*max|M|*(1+hmax/hmin) (basis functions have slopes ~ 1/hmin)",
                "d/dxq of the piecewise-linear interpolant is not compared at queries that coincide with a knot (one-sided there)"]
 BUDGET = {"quick": {"worker_timeout": 600, "case_timeout": 60}, "thorough": {"worker_timeout": 2400, "case_timeout": 60}}
